@@ -210,13 +210,15 @@ def check_values(sim, c, stim, n, opts, what=('wellformed', 'init', 'final', 'ca
 
 
 def check_sta(sim, c, delays, stim, n, opts, dataset=0):
+    """dataset: one index, or a list with the delay dataset of every lane"""
     W = K()
     out = []
     if opts.get('c_reuse'):
         return out
     cl, cc = np.asarray(sim.c_locs), np.asarray(sim.c_caps)
     for lane in range(n):
-        win = sta_window(c, delays[dataset], stim, lane, opts.get('strip_forks', False))
+        ds = dataset[lane] if isinstance(dataset, (list, tuple)) else dataset
+        win = sta_window(c, delays[ds], stim, lane, opts.get('strip_forks', False))
         for l in c.lines:
             if cl[l.index] < 0:
                 continue
